@@ -1355,7 +1355,7 @@ def smooth_distance_obligations(h):
                     Holds(f[2], name='exact_outside_band')]
     cl.prove('lemma_smooth_min', spec_l, cap=60)
 
-    # ---- goals
+    # ---- structure lemmas on the code (normals abstracted, SmoothFunctions.min abstracted and its arguments/result captured)
     stub = [True]
     real_normal, real_min = S.compute_normal, SF.min
 
@@ -1364,7 +1364,7 @@ def smooth_distance_obligations(h):
 
         def min_wrap(x, y, eps):
             m = jx.havoc(jnp.stack([x, y, eps]), 'sfmin')[0] if stub[0] else real_min(x, y, eps)
-            caps.append((x, y, eps))
+            caps.append((x, y, eps, m))
             return m
         SF.min = min_wrap
         if stub[0]:
@@ -1391,43 +1391,88 @@ def smooth_distance_obligations(h):
     stub[0] = True
     c = Case(h, fn, ex, validate=0, label='smooth_distance', jit=False)
     stub[0] = False
-    lem = []
-    ms = c.ctx.havocs['sfmin']
-    assert len(ms) == 2 and len(c.ctx.havocs['nrm']) == 2, (len(ms), len(c.ctx.havocs['nrm']))
-    for xin, out in ms:
-        lem += [sym.tob(t) for t in _sfmin_facts(xin[0], xin[1], xin[2], out[0])]
-    (a_, ma), (b_, mb) = ms
-    tz = sym.toz
-    lem.append(z3.Implies(z3.And(tz(a_[0]) == tz(b_[1]), tz(a_[1]) == tz(b_[0]), tz(a_[2]) == tz(b_[2])), tz(ma[0]) == tz(mb[0])))     # symmetry of min (+ it is a function)
-    lem.append(z3.Implies(z3.And(tz(a_[0]) == tz(b_[0]), tz(a_[1]) == tz(b_[1]), tz(a_[2]) == tz(b_[2])), tz(ma[0]) == tz(mb[0])))     # it is a function
-    for _, out in c.ctx.havocs['nrm']:
-        lem.append(tz(out[0][0]) * tz(out[0][0]) + tz(out[0][1]) * tz(out[0][1]) == 1)
+    assert len(c.ctx.havocs['sfmin']) == 2 and len(c.ctx.havocs['nrm']) == 2
+
+    def model(sgn, P0, P1, n0, n1, tol, cross_teff=None):
+        """the abstract model of smooth_distance: oriented distances, tol_eff = |n0 x n1| tol, width"""
+        x, y = v_mul(sgn, P0), v_mul(sgn, P1)
+        if cross_teff is None:
+            crossN = v_abs(v_sub(v_mul(n0[0], n1[1]), v_mul(n0[1], n1[0])))
+            teff = v_mul(crossN, tol)
+        else:
+            crossN, teff = cross_teff
+        return x, y, teff, v_if(v_lt(SAFE_TOL, crossN), teff, 0.0)
+
+    def structure(sgn, P0, P1, n0, n1, tol, r01, r10, c01, c10, when=True, tag=''):
+        x, y, teff, width = model(sgn, P0, P1, n0, n1, tol)
+        sc = v_add(1.0, v_add(v_abs(P0), v_abs(P1)))
+        at = []
+        for o_, r, cp, xx, yy in (('[E0,E1]', r01, c01, x, y), ('[E1,E0]', r10, c10, y, x)):
+            at += [Eq([s0(cp[0]), s0(cp[1])], [xx, yy], when=when, name='b.%s.smooth_min_gets_the_oriented_projected_distances%s' % (o_, tag), scale=sc),
+                   Eq(r, v_mul(sgn, s0(cp[3])), when=when, name='b.%s.result_is_orientation_times_smooth_min%s' % (o_, tag), scale=sc)]
+        return at
+
+    def width_atoms(n0, n1, tol, c01, c10):
+        _, _, _, width = model(1.0, 0.0, 0.0, n0, n1, tol)
+        return [Eq(s0(cp[2]), width, name='b.%s.width_is_abs_cross_of_normals_times_tol' % o_, scale=tol) for o_, cp in (('[E0,E1]', c01), ('[E1,E0]', c10))] + \
+               [Holds([v_le(0.0, s0(c01[2])), v_le(0.0, s0(c10[2]))], name='c.width_handed_to_smooth_min_is_nonnegative')]
+
+    def claims(sgn, P0, P1, n0, n1, tol, m01, m10, cross_teff=None):
+        """final goals, stated on the model: result_ij = sgn * m_ij"""
+        x, y, teff, width = model(sgn, P0, P1, n0, n1, tol, cross_teff)
+        mn = v_min(x, y)
+        sc = v_add(1.0, v_add(v_abs(P0), v_abs(P1)))
+        at = [Eq(v_mul(sgn, m01), v_mul(sgn, m10), name='a.symmetric_in_the_two_edges', scale=sc)]
+        for o_, m in (('[E0,E1]', m01), ('[E1,E0]', m10)):
+            sr = v_mul(sgn, v_mul(sgn, m))
+            at += [Le(sr, mn, name='b.%s.never_exceeds_oriented_min' % o_, scale=sc),
+                   Le(v_sub(mn, v_mul(0.25, v_max(teff, SAFE_TOL))), sr, name='b.%s.at_most_quarter_width_below' % o_, scale=sc),
+                   Eq(sr, mn, when=v_le(teff, v_abs(v_sub(x, y))), name='b.%s.exact_outside_band' % o_, scale=sc)]
+        return at
+
+    def orient(E0, E1):
+        return v_add(_area2(E0[0], E0[1], E1[0]), _area2(E1[0], E1[1], E0[0]))
 
     def spec(i, o):
         E0, E1, p, tol = i['E0'], i['E1'], i['p'], s0(i['tol'])
         r01, r10, c01, c10, pd0, pd1, n0, n1 = o
         r01, r10, pd0, pd1 = s0(r01), s0(r10), s0(pd0), s0(pd1)
-        asum = v_add(_area2(E0[0], E0[1], E1[0]), _area2(E1[0], E1[1], E0[0]))
-        s = v_if(v_lt(0.0, asum), -1.0, 1.0)
-        x, y = v_mul(s, pd0), v_mul(s, pd1)
-        mn = v_min(x, y)
-        crossN = v_abs(v_sub(v_mul(n0[0], n1[1]), v_mul(n0[1], n1[0])))
-        teff = v_mul(crossN, tol)
-        width = v_if(v_lt(SAFE_TOL, crossN), teff, 0.0)
-        sc = v_add(1.0, v_add(v_abs(pd0), v_abs(pd1)))
-        atoms = [Eq(r01, r10, name='a.symmetric_in_the_two_edges', scale=sc),
-                 Holds([v_le(0.0, s0(c01[2])), v_le(0.0, s0(c10[2]))], name='c.width_handed_to_smooth_min_is_nonnegative')]
-        for tag, r, cp, xx, yy in (('[E0,E1]', r01, c01, x, y), ('[E1,E0]', r10, c10, y, x)):
-            sr = v_mul(s, r)
-            atoms += [
-                Eq([s0(cp[0]), s0(cp[1])], [xx, yy], name='b.%s.smooth_min_gets_the_oriented_projected_distances' % tag, scale=sc),
-                Eq(s0(cp[2]), width, name='b.%s.width_is_abs_cross_of_normals_times_tol' % tag, scale=tol),
-                Le(sr, mn, name='b.%s.never_exceeds_oriented_min' % tag, scale=sc),
-                Le(v_sub(mn, v_mul(0.25, v_max(teff, SAFE_TOL))), sr, name='b.%s.at_most_quarter_width_below' % tag, scale=sc),
-                Eq(sr, mn, when=v_le(teff, v_abs(v_sub(x, y))), name='b.%s.exact_outside_band' % tag, scale=sc),
-            ]
-        return [v_lt(0.0, _len2(E0)), v_lt(0.0, _len2(E1)), v_lt(0.0, tol)], atoms
-    c.prove('smooth_distance', spec, cap=200 if h.thorough() else 60, extra_assumes=lem)
+        asum = orient(E0, E1)
+        at = []
+        # the orientation factor is constant on each of the three sign cases of a1 + a2 (case split keeps the lemma queries cheap)
+        for tag, cond, sg in (('[a1+a2>0]', v_lt(0.0, asum), -1.0), ('[a1+a2<0]', v_lt(asum, 0.0), 1.0), ('[a1+a2=0]', v_eq(asum, 0.0), 1.0)):
+            at += structure(sg, pd0, pd1, n0, n1, tol, r01, r10, c01, c10, when=cond, tag=tag)
+        at += width_atoms(n0, n1, tol, c01, c10)
+        n_struct = len(at)
+        sgn = v_if(v_lt(0.0, asum), -1.0, 1.0)
+        # on the real code the model's m_ij are the captured results of SmoothFunctions.min and result_ij = sgn * m_ij is checked as r_ij directly
+        fin = claims(sgn, pd0, pd1, n0, n1, tol, v_mul(sgn, r01), v_mul(sgn, r10))
+        return [v_lt(0.0, _len2(E0)), v_lt(0.0, _len2(E1)), v_lt(0.0, tol)], at + fin, n_struct
+    pre, atoms, n_struct = spec(c.inp, c.out)
+
+    def conc(k):
+        def concrete(vals):
+            ci, co = c.conc_inputs(vals), c.real(vals)
+            ca, catoms, _ = spec(ci, co)
+            return all(bool(x) for x in sym.flat(list(ca))), catoms[k], dict(outputs=[onp.asarray(l).tolist() for l in jax.tree_util.tree_leaves(co)][:8])
+        return concrete
+    base = list(pre) + c.side(True)
+    for k in range(n_struct):
+        h.prove('smooth_distance.' + atoms[k].name, base, atoms[k], inputs=c.inp, concrete=conc(k), cap=200 if h.thorough() else 60,
+                note='structure lemma, proven on the encoding of the code (normals and smooth min abstracted)')
+
+    # ---- goals on the abstracted model: a1+a2, pd0, pd1, |n0 x n1|, tol_eff and the two smooth-min results renamed to free reals; the structure lemmas above
+    # are what ties the code to this model, lemma_smooth_min.* what ties the real SmoothFunctions.min to the facts assumed for m01, m10
+    A, P0, P1, m01, m10, CR, TE = [z3.Real('abs!' + nm) for nm in ('a1_plus_a2', 'pd0', 'pd1', 'm01', 'm10', 'abs_cross_n0_n1', 'tol_eff')]
+    sgn = v_if(v_lt(0.0, A), -1.0, 1.0)
+    x, y, teff, width = model(sgn, P0, P1, None, None, None, (CR, TE))
+    assume = [CR >= 0, TE >= 0]          # |n0 x n1| >= 0 and tol_eff = |n0 x n1| * smoothingTol >= 0 (smoothingTol > 0); nothing else about them is used
+    assume += [sym.tob(t) for t in _sfmin_facts(x, y, width, m01)] + [sym.tob(t) for t in _sfmin_facts(y, x, width, m10)] + [m01 == m10]   # L at (x,y,w), (y,x,w); symmetry
+    fin = claims(sgn, P0, P1, None, None, None, m01, m10, (CR, TE))
+    assert len(fin) == len(atoms) - n_struct
+    for k, atom in enumerate(fin):
+        h.prove('smooth_distance.' + atom.name, assume, atom, inputs=c.inp, concrete=conc(n_struct + k), cap=60,
+                note='goal on the abstracted model (chain: structure lemmas + lemma_smooth_min); a countermodel cannot be replayed directly and is reported inconclusive')
 
 
 @obligation(P, 'O6.smooth_distance', cap=400)
